@@ -506,14 +506,20 @@ func (interp *Interpreter) resizeFrame() {
 // Eval evaluates Go code represented as a string. Eval returns the last result
 // computed by the interpreter, and a non nil error in case of failure.
 func (interp *Interpreter) Eval(src string) (res reflect.Value, err error) {
-	return interp.eval(src, "", true)
+	return interp.eval(src, "", true, interp.runid())
 }
 
 // EvalPath evaluates Go code located at path and returns the last result computed
 // by the interpreter, and a non nil error in case of failure.
 // The main function of the main package is executed if present.
 func (interp *Interpreter) EvalPath(path string) (res reflect.Value, err error) {
+	return interp.evalPath(path, interp.runid())
+}
+
+// evalPath evaluates the code located at path in the run id.
+func (interp *Interpreter) evalPath(path string, id uint64) (res reflect.Value, err error) {
 	if !isFile(interp.opt.filesystem, path) {
+		interp.startRun(id)
 		_, err := interp.importSrc(mainID, path, NoTest)
 		return res, err
 	}
@@ -522,7 +528,7 @@ func (interp *Interpreter) EvalPath(path string) (res reflect.Value, err error) 
 	if err != nil {
 		return res, err
 	}
-	return interp.eval(string(b), path, false)
+	return interp.eval(string(b), path, false, id)
 }
 
 // EvalPathWithContext evaluates Go code located at path and returns the last
@@ -533,11 +539,12 @@ func (interp *Interpreter) EvalPathWithContext(ctx context.Context, path string)
 	interp.done = make(chan struct{})
 	interp.cancelChan = !interp.opt.fastChan
 	interp.mutex.Unlock()
+	id := interp.runid()
 
 	done := make(chan struct{})
 	go func() {
 		defer close(done)
-		res, err = interp.EvalPath(path)
+		res, err = interp.evalPath(path, id)
 	}()
 
 	select {
@@ -563,7 +570,11 @@ func isFile(filesystem fs.FS, path string) bool {
 	return err == nil && fi.Mode().IsRegular()
 }
 
-func (interp *Interpreter) eval(src, name string, inc bool) (res reflect.Value, err error) {
+// eval compiles and executes src in the run id: a cancellation occurring from the
+// moment id was read, even before or during the compilation, stops the evaluation.
+func (interp *Interpreter) eval(src, name string, inc bool, id uint64) (res reflect.Value, err error) {
+	// Source packages imported during the compilation are initialized in this run.
+	interp.startRun(id)
 	prog, err := interp.compileSrc(src, name, inc)
 	if err != nil {
 		return res, err
@@ -573,7 +584,7 @@ func (interp *Interpreter) eval(src, name string, inc bool) (res reflect.Value, 
 		return res, err
 	}
 
-	return interp.Execute(prog)
+	return interp.executeProg(prog)
 }
 
 // EvalWithContext evaluates Go code represented as a string. It returns
@@ -586,6 +597,7 @@ func (interp *Interpreter) EvalWithContext(ctx context.Context, src string) (ref
 	interp.done = make(chan struct{})
 	interp.cancelChan = !interp.opt.fastChan
 	interp.mutex.Unlock()
+	id := interp.runid()
 
 	done := make(chan struct{})
 	go func() {
@@ -597,7 +609,7 @@ func (interp *Interpreter) EvalWithContext(ctx context.Context, src string) (ref
 			}
 			close(done)
 		}()
-		v, err = interp.Eval(src)
+		v, err = interp.eval(src, "", true, id)
 	}()
 
 	select {
